@@ -102,7 +102,7 @@ class Run:
 
     def boot_server(self):
         self.boots += 1
-        p = self.sim.new_proc(f"server{self.boots}" if self.boots > 1 else "server", skew=self.knobs.get("skew", 1.0))
+        p = self.sim.new_proc(f"server{self.boots}" if self.boots > 1 else "server", skew=self.knobs.get("skew", 1.0), role="server")
         self.sim.spawn(p, world.server_main)
         self.server = p
         self.ev("boot", p.name)
@@ -253,11 +253,11 @@ class ClientHost:
 
     def __init__(self, run, name="client"):
         self.run = run
-        self.proc = run.sim.new_proc(name)
+        self.proc = run.sim.new_proc(name, role="client")
         self.obj = None  # a client Service object kept across operations (C09), else None
 
     def restart(self, name):
-        self.proc = self.run.sim.new_proc(name)
+        self.proc = self.run.sim.new_proc(name, role="client")
         self.obj = None
 
     async def call(self, fn, *a, **kw):
